@@ -34,11 +34,25 @@ pub fn run_and_judge(cfg: &RunCfg, run_no: u32) -> (RunRecord, Vec<Finding>, Fac
                     + rec.seq_items.as_ref().map(|v| v.len()).unwrap_or(0);
                 // elements the caller skipped with nth() may or may not have been cloned
                 // (std's adaptors are free to do either)
+                // (the same holds for the rest of a chunk that was finished with count()/last())
                 let skipped: usize = rec
                     .calls
                     .iter()
                     .map(|c| match &c.res {
-                        Res::Chunk { skipped, .. } => *skipped,
+                        Res::Chunk {
+                            skipped,
+                            finish,
+                            announced,
+                            items,
+                            ..
+                        } => {
+                            skipped
+                                + if *finish != 0 {
+                                    announced.saturating_sub(skipped + items.len())
+                                } else {
+                                    0
+                                }
+                        }
                         _ => 0,
                     })
                     .sum();
@@ -76,6 +90,9 @@ fn res_equal(a: &Res, b: &Res) -> bool {
                 exhausted: e1,
                 impossible: m1,
                 skipped: s1,
+                finish_count: c1,
+                finish_last: f1,
+                ..
             },
             Res::Chunk {
                 begin: b2,
@@ -85,9 +102,14 @@ fn res_equal(a: &Res, b: &Res) -> bool {
                 exhausted: e2,
                 impossible: m2,
                 skipped: s2,
+                finish_count: c2,
+                finish_last: f2,
+                ..
             },
         ) => {
             s1 == s2
+                && c1 == c2
+                && f1.map(|o| o.raw) == f2.map(|o| o.raw)
                 && b1 == b2
                 && a1 == a2
                 && l1 == l2
